@@ -290,6 +290,114 @@ func exchange(c *core.Ctx, r *core.Rand, b builder, s shape) {
 	judge(c, b, s, pl, cerr, sent)
 }
 
+// batchCase: a multi-item batch (Client.Batch and the fluent Then(...) chain) answered item by item from
+// {right payload, failed, pending, success with another operation's payload, success without payload,
+// success answering another operation}. Every item that reports no error must carry the payload type of
+// the operation requested AT ITS POSITION.
+func batchCase(c *core.Ctx, r *core.Rand, i int) {
+	n := 2 + i%3
+	reqOps := make([]*gen.Op, n)
+	pls := make([]kmip.OperationPayload, n)
+	simple := []kmip.Operation{kmip.OperationActivate, kmip.OperationDestroy, kmip.OperationRevoke, kmip.OperationArchive, kmip.OperationRecover, kmip.OperationGet}
+	g := gen.New(r, gen.Mode{Minor: 4, Gate: true, Text: gen.TextASCII, TextDates: true, NamedEnums: true}, refmodel.Gates())
+	for k := range reqOps {
+		reqOps[k] = gen.OpByCode(simple[r.Intn(len(simple))])
+		pls[k] = g.Payload(reqOps[k], false)
+	}
+	kinds := make([]int, n)
+	x := i / 3
+	for k := range kinds {
+		kinds[k] = x % 6
+		x /= 6
+	}
+	names := []string{"right", "failed", "pending", "success-foreign-payload", "success-no-payload", "success-other-operation"}
+	var sent *kmip.ResponseMessage
+	srv := script.NewServer(func(rx script.Received, _ *memnet.Conn) *kmip.ResponseMessage {
+		resp := &kmip.ResponseMessage{Header: kmip.ResponseHeader{ProtocolVersion: rx.Msg.Header.ProtocolVersion, TimeStamp: time.Unix(1700000000, 0), BatchCount: int32(n)}}
+		for k := 0; k < n && k < len(rx.Msg.BatchItem); k++ {
+			bi := kmip.ResponseBatchItem{Operation: reqOps[k].Code, UniqueBatchItemID: rx.Msg.BatchItem[k].UniqueBatchItemID}
+			switch kinds[k] {
+			case 0:
+				bi.ResponsePayload = g.Payload(reqOps[k], true)
+			case 1:
+				bi.ResultStatus, bi.ResultReason, bi.ResultMessage = kmip.ResultStatusOperationFailed, kmip.ResultReasonItemNotFound, serverMessage
+			case 2:
+				bi.ResultStatus, bi.AsynchronousCorrelationValue = kmip.ResultStatusOperationPending, []byte{1}
+			case 3:
+				// announced under the requested operation, but the content is another operation's payload:
+				// use an operation whose payload decodes under both (same single-field layout)
+				other := kmip.OperationDestroy
+				if reqOps[k].Code == kmip.OperationDestroy {
+					other = kmip.OperationActivate
+				}
+				bi.Operation = other
+				bi.ResponsePayload = g.Payload(gen.OpByCode(other), true)
+			case 4:
+				// success, no payload
+			case 5:
+				bi.Operation = otherOp(reqOps[k].Code).Code
+				bi.ResponsePayload = g.Payload(otherOp(reqOps[k].Code), true)
+			}
+			resp.BatchItem = append(resp.BatchItem, bi)
+		}
+		sent = resp
+		return resp
+	})
+	defer srv.Close()
+	cl, err := newClient(srv)
+	if err != nil {
+		panic(err)
+	}
+	defer cl.Close()
+	label := fmt.Sprintf("batch of %d answered with %v", n, func() []string {
+		var o []string
+		for _, k := range kinds {
+			o = append(o, names[k])
+		}
+		return o
+	}())
+	c.Distinct(core.Hash64("batch", label))
+	var res kmipclient.BatchResult
+	var cerr error
+	opt := []kmipclient.BatchOption{}
+	if i%2 == 1 {
+		opt = append(opt, kmipclient.OnBatchErr(kmip.BatchErrorContinuationOptionContinue))
+	}
+	if p, pv, st := core.Guard(func() { res, cerr = cl.BatchOpt(context.Background(), pls, opt...) }); p {
+		c.Violation(core.PanicSig(pv, st), fmt.Sprintf("Batch panicked: %v (%s)", pv, label), map[string]any{"stack": st})
+		return
+	}
+	c.Count("batch_exchanges", 1)
+	if cerr != nil || sent == nil {
+		c.Count("batch_calls_failed", 1)
+		return
+	}
+	det := map[string]any{"response": string(ttlv.MarshalText(sent))}
+	if len(res) != n {
+		c.Violation("C12:batch-item-count", fmt.Sprintf("Batch returned %d items for %d requests (%s)", len(res), n, label), det)
+		return
+	}
+	for k := range res {
+		c.Count("batch_items_inspected", 1)
+		if res[k].Err() != nil {
+			txt := res[k].Err().Error()
+			if kinds[k] == 1 && !(strings.Contains(txt, "OperationFailed") && strings.Contains(txt, "ItemNotFound") && strings.Contains(txt, serverMessage)) {
+				c.Violation("C12:error-lacks-server-info:Batch", fmt.Sprintf("item %d: error %q lacks the server's status, reason or message (%s)", k, txt, label), det)
+			}
+			continue
+		}
+		pl := res[k].ResponsePayload
+		if pl == nil {
+			c.Violation("C12:success-without-payload:Batch", fmt.Sprintf("item %d of a batch reports no error and carries no payload (%s)", k, label), det)
+			return
+		}
+		if pl.Operation() != reqOps[k].Code || reflect.TypeOf(pl) != reflect.PointerTo(reqOps[k].Resp) {
+			c.Violation("C12:foreign-payload-as-success:Batch", fmt.Sprintf("item %d of a batch returns a %T as the successful result of a %s request (%s)", k, pl, reqOps[k].Name, label), det)
+			return
+		}
+	}
+}
+
 func negotiationCase(c *core.Ctx, r *core.Rand, i int) {
 	s, ok := shapeOf(i)
 	if !ok {
@@ -378,8 +486,8 @@ func Spec() *core.Spec {
 		Level: "exploration",
 		Rule: "for each of the 26 fluent request builders plus Client.Request, Client.Batch, the version-discovery exchange of Dial and Client.Signer: a scripted server answers from the complete product " +
 			"{header batch count 0,1,2} x {items 0,1,2} x {operation: requested, other registered, unknown, absent} x {status: Success, Failed, Pending, Undone, unknown} x {reason: none, registered, unknown} x {payload: absent, right, another operation's, opaque} (1443 shapes per entry point), " +
-			"plus seeded random well-formed responses with extensions and async values; every (value, error) outcome is inspected under a panic monitor. distinct = distinct (entry point, response shape)",
-		Required: []string{"exchanges", "calls_succeeded", "calls_failed", "failed_item_errors_inspected", "negotiations", "signer_calls"},
+			"plus seeded random well-formed responses with extensions and async values; plus every batch of 2, 3 and 4 requests answered item by item from {right, failed, pending, success with another operation's payload, success without payload, success answering another operation} (each item judged at its position); every (value, error) outcome is inspected under a panic monitor. distinct = distinct (entry point, response shape)",
+		Required: []string{"exchanges", "calls_succeeded", "calls_failed", "failed_item_errors_inspected", "negotiations", "signer_calls", "batch_exchanges", "batch_items_inspected"},
 		Families: []core.Family{
 			{Name: "shapes", Exhaustive: true, N: func(string) int { return len(bs) * nShapes }, Run: func(c *core.Ctx, r *core.Rand, i int) {
 				b := bs[i%len(bs)]
@@ -402,6 +510,17 @@ func Spec() *core.Spec {
 				s, _ := shapeOf(3 + r.Intn(nShapes-3))
 				s.extras = true
 				exchange(c, r, b, s)
+			}},
+			{Name: "batches", Exhaustive: true, N: func(string) int { return 3 * (36 + 216 + 1296) }, Run: func(c *core.Ctx, r *core.Rand, i int) {
+				n := 2 + i%3
+				lim := 1
+				for k := 0; k < n; k++ {
+					lim *= 6
+				}
+				if i/3 >= lim {
+					return
+				}
+				batchCase(c, r, i)
 			}},
 			{Name: "negotiation", Exhaustive: true, N: func(string) int { return nShapes }, Run: negotiationCase},
 			{Name: "signer", N: func(string) int { return nShapes }, Run: signerCase},
